@@ -1,7 +1,9 @@
 (* C20 — builder path: call sequences, numbering, no panic. *)
 From hls Require Import Base Float Lex Kinds Types Tags Line Keys Media Dump Builder.
 From hls Require Import Master.
-From hls.Proofs Require Import Build Parse MediaProps NoPanic C20 MediaText C03Items ParsedBuilt Rebuild.
+From hls Require Import StableVecCap.
+From hls.Generated Require Import Tables.
+From hls.Proofs Require Import Build Parse MediaProps NoPanic C20 MediaText C03Items ParsedBuilt Rebuild StableVecCapProof.
 Open Scope N_scope.
 
 (* field setters in any order: setters of different fields commute, of the same field the
@@ -103,6 +105,30 @@ Check C20_paths_agree : forall p raws, wf_media p = true -> built_ok p raws -> m
   build (builder_of p raws) = Ok p /\ parse_media (print_media p) = Ok (reread p)
   /\ Forall2 seg_same (mp_segs (reread p)) (mp_segs p).
 Print Assumptions C20_paths_agree.
+
+(* the segment vector with its CAPACITY (Model/StableVecCap.v: StableVec::insert panics when the index is not below the
+   capacity, reserve_for makes room, push grows): any sequence of push_segment calls and any segments() call, with any
+   explicit numbers, returns without panicking, and computes the slot lists the rest of the development uses.  The
+   regenerated flag says that in the source every insert into the segment vector directly follows reserve_for with the
+   same index; without it the first explicitly numbered segment panics (the repaired defect D14, C20_noreserve_panics). *)
+Theorem C20_slots_never_panic :
+  (forall ss v, exists v', fold_res push_segment_cap ss v = Ok v' /\ cs_slots v' = fold_left push_segment ss (cs_slots v))
+  /\ (forall l, exists v', set_segments_cap l = Ok v' /\ cs_slots v' = set_segments l).
+Proof. split; [exact pushes_cap_ok | exact set_segments_cap_ok]. Qed.
+Check C20_slots_never_panic :
+  (forall ss v, exists v', fold_res push_segment_cap ss v = Ok v' /\ cs_slots v' = fold_left push_segment ss (cs_slots v))
+  /\ (forall l, exists v', set_segments_cap l = Ok v' /\ cs_slots v' = set_segments l).
+Print Assumptions C20_slots_never_panic.
+
+Theorem C20_reserve_before_insert : reserve_before_insert = true.
+Proof. reflexivity. Qed.
+Check C20_reserve_before_insert : reserve_before_insert = true.
+Print Assumptions C20_reserve_before_insert.
+
+Theorem C20_noreserve_panics : forall s, sg_explicit s = true -> push_segment_noreserve cs_new s = Panic.
+Proof. exact noreserve_panics. Qed.
+Check C20_noreserve_panics : forall s, sg_explicit s = true -> push_segment_noreserve cs_new s = Panic.
+Print Assumptions C20_noreserve_panics.
 
 Example C20_example :
   match run_ops [BTarget 10000000000; BMseq 0; BSegBegin (Some 1); BSegDur 5000000000; BSegUri [98]; BSegEndList;
